@@ -104,6 +104,7 @@ structure Engine (E : Type) where
   fresh : E                                   -- engine of a new instance (constructor + UnLoadDatabase)
   unload : E → E                              -- clean_up(); init(); do_initialize(); dump_info reset
   readDb : E → String → E × Nat               -- read_database: (state, input errors)
+  readDbText : E → String → String × String   -- the error and warning text read_database reports for this database
   run : E → RunEnv → String → E × RunOut      -- do_run on an instance with a loaded database
   testInput : E → String                      -- the SOLUTION n; DELETE text test_db builds from the engine
   components : E → List String
@@ -190,11 +191,15 @@ def accumulate {E : Type} (w : W E) (line : String) : W E :=
 def unloadDatabase {E : Type} (eng : Engine E) (w : W E) : W E :=
   { w with c := {}, engine := eng.unload w.engine }
 
-/-- load_db / load_db_str -/
+/-- load_db / load_db_str: UnLoadDatabase, read_database, then update_errors (since ba67bb06 also after a failed read: the
+    error/warning strings and their line views show what this read reported), DatabaseLoaded := no input errors -/
 def loadDb {E : Type} (eng : Engine E) (w : W E) (db : String) : W E × Nat :=
   let w1 := unloadDatabase eng w
   let (e', n) := eng.readDb w1.engine db
-  ({ w1 with engine := e', c := { w1.c with dbLoaded := (n == 0) } }, n)
+  let t := eng.readDbText w1.engine db
+  ({ w1 with engine := e',
+             c := { w1.c with dbLoaded := (n == 0), errReporter := t.1, warnReporter := t.2, errorString := t.1, warningString := t.2 },
+             pc := { w1.pc with errorLines := t.1, warningLines := t.2 } }, n)
 
 /-- LoadDatabase / LoadDatabaseString: three file switches are held off while loading; test_db runs when the read succeeded -/
 def load {E : Type} (eng : Engine E) (w : W E) (db : String) : W E × Nat :=
